@@ -341,7 +341,7 @@ ITEM_TYPES = {'Matches': "type Item = Result < Match < 't > > ;", 'CaptureMatche
 # to `for` (both as in Model/Api.lean; Proofs/C08 proves them sufficient for a well-formed engine)
 INNER_NEXT_FUEL = '(text.length + 2)'
 ITER_ITEMS_BOUND = '(text.length + 3)'
-RESERVED = {'fuel', 're', 'span', 'acc', 'rest_', 'find', 'caps', 'r_', 'e_'}
+RESERVED = {'fuel', 're', 'span', 'acc', 'rest_', 'find', 'caps', 'r_', 'e_', 'cap_', 'x_', 'y_'}
 
 
 def vid(name):
@@ -576,7 +576,8 @@ class Translator:
                     bad('arguments of `%s`' % path[0], line)
                 return '(%s %s)' % (name, ' '.join(v for v, _ in vals)), 'usize'
             if path == ['String', 'with_capacity'] and len(args) == 1:
-                self.vex(args[0], c)
+                if self.capacity(args[0], c) is not None:
+                    bad('`String::with_capacity(..)` whose argument can overflow / exceed isize::MAX: only as the initialiser of a `let`', line)
                 return '([] : Bytes)', 'Str'
             bad('call of `%s`' % '::'.join(path), line)
         if k == 'mcall':
@@ -600,6 +601,32 @@ class Translator:
         if k == 'try':
             bad('`?` outside `let x = x?;`', line)
         bad('expression form %s' % k, line)
+
+    def capacity(self, arg, c):
+        """the argument of `String::with_capacity`: None when neither its arithmetic nor the capacity can overflow (statically, with
+        the adaptor fact LEN of rs2lean_ints: a `len()` is at most isize::MAX), else the Lean text (an `Option Nat`) of its value
+        with checked `usize` arithmetic"""
+        def leaf(x):
+            if x[0] == 'mcall' and x[2] == 'len' and not x[3]:
+                try:
+                    if self.vex(x[1], c)[1] in ('Text', 'Str'):
+                        return ints.ISIZE_MAX
+                except Unsupported:
+                    pass
+            return None
+
+        def value(x):
+            v, t = self.vex(x, c)
+            if t not in NUM:
+                bad('capacity of type %s' % (t,), x[-1])
+            return v
+        v, t = self.vex(arg, c)              # type check (and the usual refusals)
+        if t not in NUM:
+            bad('capacity of type %s' % (t,), arg[-1])
+        b = ints.cap_bound(arg, leaf)
+        if b is not None and b <= ints.ISIZE_MAX:
+            return None
+        return ints.cap_opt(arg, value)
 
     def vex_mcall(self, e, c):
         _, recv, m, args, line = e
@@ -924,6 +951,18 @@ class Translator:
                         pass
                     return [i2 + 'let %s : %s := %s' % (vid(name), lean_type(c3.types[name]), v)] + cont(c3, i2)
                 return self.cps(e, c, ind, kv)
+            if e[0] == 'call' and e[1] == ['String', 'with_capacity'] and len(e[2]) == 1:
+                cap = self.capacity(e[2][0], c)
+                if cap is not None:
+                    # the argument can overflow: `usize` `+` / `*` checked, then the capacity against isize::MAX (both: a panic)
+                    c2 = self.bind(c, name, 'Str', line, mut, allow_shadow=self.may_shadow(c, name, s))
+                    panic = '.ret .panic' if c.loop else '.panic'
+                    return [ind + 'match %s with' % cap,
+                            ind + '| none => %s   -- capacity arithmetic overflow' % panic,
+                            ind + '| some cap_ =>',
+                            ind + '  if cap_ ≤ %d then' % ints.ISIZE_MAX,
+                            ind + '    let %s : Bytes := ([] : Bytes)' % vid(name)] + cont(c2, ind + '    ') + \
+                           [ind + '  else %s   -- capacity overflow' % panic]
             v, t = self.vex(e, c)
             c2 = self.bind(c, name, t, line, mut, allow_shadow=self.may_shadow(c, name, s))
             return [ind + 'let %s : %s := %s' % (vid(name), lean_type(c2.types[name]), v)] + cont(c2, ind)
